@@ -47,6 +47,9 @@ structure NodeF (σ : Type) where
   anyOfCount : Nat := 0            -- subSchemaType = anyOf with this many branches (0: not an anyOf merge)
   isAllOf : Bool := false
   dereferenced : Bool := false
+  /-- keywords present with an EMPTY array / object value: Go decodes them to empty non-nil slices / maps,
+      which `cmp.Equal` distinguishes from the nil of an absent keyword -/
+  emptyKw : List String := []
 
 inductive Schema where
   | mk (n : NodeF Schema)
@@ -175,7 +178,9 @@ mutual
           defs := (match defsNew with | some d => d | none => defsOld.getD []),
           allOf, anyOf,
           default := (match alookup "default" kvs with | none | some .null => none | some j => some j),
-          ext })
+          ext,
+          emptyKw := ["required", "properties", "$defs", "definitions", "allOf"].filter fun k =>
+            match alookup k kvs with | some (.arr []) | some (.obj []) => true | _ => false })
     | _ + 1, _ => .error (.type "schema")
   /-- a `*Type` field: absent or null ↦ nil -/
   def parseOpt : Nat → Option Json → Except ParseErr (Option Schema)
